@@ -26,6 +26,8 @@ def conc(p):
     k = p['k']
     if k == 'num':
         return p['n']
+    if k == 'big':
+        return BIG[p['n']]
     if k == 'eps':
         return p['n'] * EPS
     if k == 'frac':
@@ -48,6 +50,8 @@ def conc(p):
     raise MachineryError(f'unknown abstract value {p!r}')
 
 
+# Dispatch.tla Big(i): integers around 2^53 / 2^55, where a detour through a float loses the last bits
+BIG = [0, 1, 5, 2 ** 53 - 1, 2 ** 53, 2 ** 53 + 1, 2 ** 53 + 3, 2 ** 55 - 1, 2 ** 55, 2 ** 55 + 1, 2 ** 55 + 3, 2 ** 56, 2 ** 56 + 1]
 SPECIAL_TOKENS = {'nan': 'NaN', 'pinf': 'Infinity', 'ninf': '-Infinity', 'huge': '1e999'}
 
 
@@ -105,7 +109,7 @@ def build_dt(dt):
     if t == 'double':
         return D.FloatRange(dt['lo'], dt['hi'])
     if t == 'int':
-        return D.IntRange(dt['lo'], dt['hi'])
+        return D.IntRange(BIG[dt['lo']], BIG[dt['hi']]) if dt.get('big') else D.IntRange(dt['lo'], dt['hi'])
     if t == 'enum':
         return D.EnumType('e', **{m['name']: m['val'] for m in dt['mem']})
     if t == 'string':
@@ -172,6 +176,8 @@ def abs_value(dt, v, wire=False):
         if t == 'double':
             return abs_number(v) if isinstance(v, float) or (wire and isinstance(v, int)) else odd(v)
         if t == 'int':
+            if dt.get('big'):
+                return {'k': 'big', 'n': BIG.index(v)} if isinstance(v, int) and not isinstance(v, bool) and v in BIG else odd(v)
             return abs_number(v) if isinstance(v, int) else odd(v)
         if t == 'enum':
             if wire:
